@@ -44,7 +44,7 @@ def prog_gadgets(tier):
 def cases(tier):
     yield from prog_gadgets(tier)
     yield from simspace.junctions(tier)
-    yield from (s for s in simspace.timed(tier) if s["timed"]["struct"] == "group_junction")
+    yield from (s for s in simspace.timed(tier) if s["timed"]["struct"].startswith("group_") and s["timed"]["struct"] != "group")
     yield from simspace.combined(tier)
 
 
